@@ -137,6 +137,13 @@ impl<T> Debug for Key<T> {
     }
 }
 
+#[cfg(compio_rs_compio_verif)]
+impl<T> Key<T> {
+    pub(crate) fn erased_inner(&self) -> &ThinCell<RawOp<dyn Carry>> {
+        &self.erased.inner
+    }
+}
+
 impl<T> Key<T> {
     pub(crate) fn into_raw(self) -> usize {
         self.erased.into_raw()
